@@ -7,6 +7,30 @@ TB = ("Trusted: Lean 4.33 kernel (propext, Classical.choice, Quot.sound only); S
       "The theorems are about the Lean model; the model is tied to /repo by regenerated tables (translator) and by "
       "differential execution (harness) on every run.")
 claimed = {
+ "C02": dict(
+   text="Lean theorems: the registration model decomposes into a storage-independent decision and a storage step (reg_decompose); the decision succeeds iff "
+        "every ceremony condition of the property holds and then yields the ATTESTED credential id and key (regPre_iff against Spec.RegPreOK: client-data type / "
+        "challenge / origin, attestation object decodes, SHA-256(RP ID), UP, UV when authenticatorSelection.userVerification is 'required' and only then, attested "
+        "credential data present, supported COSE key whose algorithm is in pubKeyCredParams, the format's procedure accepts, type and format allowed, raw id = "
+        "attested id); reg_iff adds the storage conditions; absent authenticatorSelection only removes the UV demand; no attested data / raw id mismatch / empty "
+        "policy sets always reject; non-vacuity by evaluating a concrete 113-byte attestation object in the kernel. Tie: differential execution of the compiled "
+        "model against VerifyRegistrationCeremony on honest, single-deviation, combined and mutated responses in all eight format variants.",
+   ref="DESIGN.md §8 C02", technique="Lean 4 proof (decision iff conditions, for all environments and storages) + differential execution"),
+ "C06": dict(
+   text="Lean theorems: on success the call log is exactly [get id, set record] with record = (attested id, options.user.id, attested key bytes), the same record "
+        "is returned, and the write was acknowledged; on failure no write was acknowledged; at most one read then at most one write; an id owned by another user "
+        "yields differentUser with only the read performed; a read error other than (wrapped) not-found fails with the storage error and no write; a write error is "
+        "a failure; authentication performs at most one read of the response's id and never writes, and depends on storage only through that answer. All for every "
+        "storage answer at every call site (the fault-sequence quantifier is a case split in the proof). Tie: call order regenerated from source (T9) and pinned; "
+        "the harness plays the complete outcome product through its own CredentialStorage against honest and rejected ceremonies.",
+   ref="DESIGN.md §8 C06", technique="Lean 4 proof by case split over the storage outcome alphabet + exhaustive fault-product differential execution"),
+ "C08": dict(
+   text="Lean theorems: for ANY option list the effective format/type sets are those of the last option of each kind, else all seven formats / six types "
+        "(config_spec, by induction over the list); registration success implies format and type are in those sets; an empty set rejects everything; a fmt that is "
+        "not exactly one of the seven identifiers is rejected by statement verification under every configuration (dispatch table regenerated from source, default "
+        "branch is an error). Tie: format/type lists, dispatch table, per-verifier result types and the 'setter replaces the map' fact are regenerated and pinned; "
+        "ceremonies are run under sampled (quick) or all 2^13 (thorough) subset pairs, arbitrary option lists and odd fmt strings.",
+   ref="DESIGN.md §8 C08", technique="Lean 4 proof (fold over arbitrary option lists) over regenerated tables + differential execution"),
  "C01": dict(
    text="Lean theorem auth_iff: for every environment (dependency behaviour), RP, options, response and storage answer, the model of "
         "VerifyAuthenticationCeremony returns a credential iff the ten conditions of the property hold (allow-list, stored record, owner = user handle, "
